@@ -363,6 +363,25 @@ func totalFanout(g *FG, x *GNode) (bool, string) {
 			}
 		}
 	}
+	// after the call the loop must go on to the next element: no break/return between the call and the loop head
+	isHead := func(y *GNode) bool {
+		if y.N != nil || y.Blk == nil || y.Blk.Stmt != loopStmt {
+			return false
+		}
+		k := y.Blk.Kind.String()
+		return k == "RangeLoop" || k == "ForLoop" || k == "ForPost"
+	}
+	seen2, parent2 := g.Reach([]*GNode{x}, isHead, nil)
+	for y := range seen2 {
+		if y == g.Exit {
+			return false, "the loop can be left by return after the call, before the remaining elements: " + g.pathLines(parent2, y)
+		}
+		if y.N == nil && y.Blk != nil && y.Blk.Stmt == loopStmt {
+			if k := y.Blk.Kind.String(); k == "RangeDone" || k == "ForDone" {
+				return false, "the loop can be left by break after the call, before the remaining elements: " + g.pathLines(parent2, y)
+			}
+		}
+	}
 	return true, ""
 }
 
